@@ -78,6 +78,8 @@ def mol(key):
             m = M(XYZ_H4, q=1, spin=1, basis="sto-3g")
         elif key == "H4t":      # triplet H4
             m = M(XYZ_H4, q=0, spin=2, basis="sto-3g")
+        elif key == "H4dim":    # two distant H2 dimers: many Hamiltonian coefficients between 1e-8 and 1e-5
+            m = M([("H", (0., 0., 0.)), ("H", (0., 0., 0.8)), ("H", (0., 0.4, 4.0)), ("H", (0., 0.5, 4.8))], q=0, spin=0, basis="sto-3g")
         elif key == "H4+q":     # quartet H4+ (three unpaired alpha electrons)
             m = M(XYZ_H4, q=1, spin=3, basis="sto-3g")
         else:
